@@ -466,6 +466,7 @@ class Hung(Exception):
 
 
 HANG_S = 40
+TAINTED = False
 
 
 def run_guarded(fn, *a):
@@ -573,6 +574,10 @@ def part_transparency(ctx, k):
         tb, rb, (pre, nadm) = run_guarded(run_app_script, cfg, ops, variant,
                                           k)
     except Hung as e:
+        # the stuck run never un-instrumented its server: the class-level
+        # wrappers it left behind would taint everything that follows
+        global TAINTED
+        TAINTED = True
         ctx.violation(None, 'the instrumented (%s) %s server never finished '
                       'a scenario that the plain server completed: stuck at'
                       ' %s' % (variant, kind, str(e).strip().splitlines()[-2:
@@ -802,7 +807,8 @@ def run(ctx):
     ctx.require('transparency_runs_with_admin_connected', 5)
     ctx.require('transparency_frames_compared', 200)
     k = ctx.shard
-    while not ctx.out_of_time() and not ctx.too_many_violations():
+    while not ctx.out_of_time() and not ctx.too_many_violations() and \
+            not TAINTED:
         run_case(ctx, k)
         k += ctx.nshards
 
